@@ -21,7 +21,7 @@ func init() {
 	register(&mc.Prop{
 		ID: "C19",
 		Rule: "(a) explicit-state BFS over decode histories on one instance: operation = decode Intern{A:s1,B:s2[,null.String]} from a caller buffer that is overwritten afterwards, s in {\"\",a,ab,b,\\x00\\xff,128 bytes}; states de-duplicated on the real intern tables' contents (read reflectively); " +
-			"in every state: interned result == plain twin's result, every string returned so far still equals its recorded copy, every table entry has key==value and no bytes inside any caller buffer, earlier table snapshots are unchanged (copy-on-write), Marshal bytes equal with and without the option; " +
+			"in every state: interned result == plain twin's result (into fresh variables and into long-lived re-used destinations), every string returned so far still equals its recorded copy, every table entry has key==value and no bytes inside any caller buffer, earlier table snapshots are unchanged (copy-on-write), Marshal bytes equal with and without the option; " +
 			"(b) 2-3 goroutines decoding through shared tables under the scheduler, all interleavings / preemption bounded; (c) free-running -race pass. non-trivial = state with a non-empty table / schedule with a preemption",
 		Assumptions: []string{"the intern table is located reflectively (an unsafe.Pointer field next to a mutex inside the field codec); if the layout changes the check stops with a machinery error, not an alarm"},
 		Workers:     func(string) int { return 16 },
@@ -132,6 +132,11 @@ func c19Replay(c *mc.Ctx, hist []c19Op) (key string, bad string, detail string) 
 	var bufs [][]byte
 	var snaps []map[string]string
 	var snapCopies []map[string]string
+	// long-lived destinations decoded into at every step (merge-style re-use)
+	var keepI gen.Intern
+	var keepP gen.Plain
+	var keepNI gen.NIntern
+	var keepNP gen.NPlain
 	fail := func(b, d string) (string, string, string) { return "", b, d }
 	for step, op := range hist {
 		var data, plain []byte
@@ -179,6 +184,18 @@ func c19Replay(c *mc.Ctx, hist []c19Op) (key string, bad string, detail string) 
 				return fail("null-validity-differs", fmt.Sprintf("step %d: interned valid=%v plain valid=%v", step, out.A.Valid, tw.A.Valid))
 			}
 			gotA, gotB, wantA, wantB = out.A.String, out.B, tw.A.String, tw.B
+		}
+		// the same bytes into the re-used destinations: interned and plain twins must stay equal
+		if op.n < 0 {
+			e1, e2 := p.Unmarshal(append([]byte(nil), data...), &keepI), p.Unmarshal(append([]byte(nil), data...), &keepP)
+			if e1 != nil || e2 != nil || keepI.A != keepP.A || keepI.B != keepP.B || keepI.C != keepP.C {
+				return fail("interned-differs-from-plain-in-reused-target", fmt.Sprintf("step %d: interned %+v plain %+v (%v %v)", step, keepI, keepP, e1, e2))
+			}
+		} else {
+			e1, e2 := p.Unmarshal(append([]byte(nil), data...), &keepNI), p.Unmarshal(append([]byte(nil), data...), &keepNP)
+			if e1 != nil || e2 != nil || keepNI.A != keepNP.A || keepNI.B != keepNP.B {
+				return fail("interned-differs-from-plain-in-reused-target", fmt.Sprintf("step %d: interned %+v plain %+v (%v %v)", step, keepNI, keepNP, e1, e2))
+			}
 		}
 		if gotA != wantA || gotB != wantB {
 			return fail("interned-differs-from-plain", fmt.Sprintf("step %d: interned (%q,%q) plain (%q,%q)", step, gotA, gotB, wantA, wantB))
